@@ -94,7 +94,7 @@ def case_piecewise_linear():
 
 
 CASES = dict(C10.CASES)
-for k in ('likelihood:unrooted/weibull/HKY', 'likelihood:strict/constant/HKY'):
+for k in ('likelihood:unrooted/weibull/HKY', 'likelihood:strict/constant/HKY', 'substitution:GTR.q', 'substitution:HKY.q'):
     CASES.pop(k)  # the derivative through the eigh stub is not modelled (outside the claim)
 CASES.update({
     'chain:node-height log-Jacobian': lambda: case_chain('jacobian'),
